@@ -441,3 +441,50 @@ macro_rules! with_shape {
         }
     };
 }
+
+mod macro_anims {
+    use super::{Anim, St, S4};
+    #[allow(unused_imports)]
+    use mina::prelude::*;
+
+    /// Animators written with `animator!` (S4 = {a, b, c, d}); `animated[state]` lists the fields that state's timeline(s)
+    /// have a keyframe for. Looping / reversing arms without a 0 % keyframe, arms with only timing words, merged arms and
+    /// a state listed in two arms (the later arm wins) are all here.
+    pub fn macro_animators() -> Vec<(&'static str, Anim<S4>, [Vec<usize>; 5])> {
+        vec![
+            (
+                "looping arms without a 0 % keyframe",
+                mina::animator!(S4 {
+                    default(St::A, { a: 1.0, b: 2.0, c: 3, d: 4.0 }),
+                    St::B => 1s to { b: 40.0 },
+                    St::C => 2s infinite to { a: 10.0 },
+                    St::D => 2s reverse 50% { c: 77 },
+                    St::E => 1s 3x 25% { d: 9.5 } to { d: -3.0 }
+                }),
+                [vec![], vec![1], vec![0], vec![2], vec![3]],
+            ),
+            (
+                "timing-only arm, merged arm, default keyframes",
+                mina::animator!(S4 {
+                    default(St::A, { a: -5.0, c: 100 }),
+                    St::B => 0.5s infinite reverse,
+                    St::C => [1s to { a: 3.0 }, 2s 2x after 0.5s 50% { c: 9 }],
+                    St::D => 1s reverse from default to { a: 50.0, b: 6.0, c: 7, d: 8.0 },
+                    St::E => 4s to { b: 1.5 }
+                }),
+                [vec![], vec![], vec![0, 2], vec![0, 1, 2, 3], vec![1]],
+            ),
+            (
+                "a state listed in two arms: the later arm is its timeline",
+                mina::animator!(S4 {
+                    default(St::B, { a: 0.5, b: 0.25, c: -8, d: 16.0 }),
+                    St::A | St::C | St::D => 1s infinite to { a: 9.0, b: 9.0 },
+                    St::C => 2s 1x to { c: 500 },
+                    St::E => 1s reverse 2x 10% { d: 1.0 } 90% { d: 2.0 }
+                }),
+                [vec![0, 1], vec![], vec![2], vec![0, 1], vec![3]],
+            ),
+        ]
+    }
+}
+pub use macro_anims::macro_animators;
